@@ -7,7 +7,8 @@ from .common import Res, generic_replay
 PA = "104,101,108,108,111"          # "hello"
 PB = "49,50,51,52,53,54,55,56,57,48,65,66,67"   # "1234567890ABC"
 ALPHABET = [f"add~{PA}~0", f"add~{PB}~4", "clear", "make~1", "make~0", "setv~1", "setv~2", "setl~2", "setm~-", "getm",
-            "mut~8~8~1", "img", "ascii", f"other~2~1~-~1~4:{PA}"]
+            "mut~8~8~1", "img", "ascii", f"other~2~1~-~1~4:{PA}",
+            "addseg~1:52,50,49,57", "addseg~2:52,50,49,57"]      # the same bytes as a numeric and as an alphanumeric segment
 
 
 def fresh_outcome(snap, fit):
@@ -31,18 +32,29 @@ def fresh_outcome(snap, fit):
         M.precomputed_qr_blanks.update(saved)
 
 
+PRISTINE = None
+_SEEN = []      # what this (worker) process ran before: part of the replay, since process-wide state is what C11 is about
+
+
 def _work(item):
     import_impl()
     ctor, ops, warm = item
     viol = []
 
     def probe(snap, fit, res, pos):
-        fr = fresh_outcome(snap, fit)
+        # the reference: a fresh object in a process that never produced a symbol (pristine server), falling back to a
+        # fresh object in this process with the blank cache emptied
+        if PRISTINE is not None:
+            fr = PRISTINE.ask(snap[0], snap[1], snap[2], snap[3], fit)
+        else:
+            fr = fresh_outcome(snap, fit)
         same = (res[0] == fr[0]) and (res[1:] == fr[1:] if res[0] == "err" else (res[1] == fr[1] and res[2] == fr[2]))
         if not same:
             viol.append(dict(position=pos, settings=dict(version=snap[0], level=snap[1], mask=snap[2]),
-                             observed=res[:2] if res[0] == "ok" else res, fresh=fr[:2] if fr[0] == "ok" else fr))
+                             observed=res[:2] if res[0] == "ok" else res, fresh=fr[:2] if fr[0] == "ok" else fr,
+                             earlier_in_this_process=[dict(ctor=list(c), ops=o, warm=list(w)) for c, o, w in _SEEN[-80:]]))
     out = objrun.run_history(ctor, ops, warm, probe=probe)
+    _SEEN.append((ctor, ops, warm))
     return out, viol
 
 
@@ -51,7 +63,13 @@ def replay(rep, log):
     print(json.dumps(rep, indent=1, default=str)[:3000])
     if rep.get("kind") == "failing-input" and "history" in rep:
         h = rep["history"]
+        from .. import pristine
+        global PRISTINE
+        PRISTINE = pristine.Pristine()
+        for e in rep.get("earlier_in_this_process", []):          # re-create the process history first
+            _work((tuple(e["ctor"]), e["ops"], tuple(e.get("warm", ()))))
         out, viol = _work((tuple(h["ctor"]), h["ops"], tuple(h.get("warm", ()))))
+        PRISTINE.close(); PRISTINE = None
         print("implementation:", out)
         print("model:         ", ask([objrun.request(tuple(h["ctor"]), h["ops"], tuple(h.get("warm", ())))])[0])
         print("compiles that differ from a fresh object:", viol)
@@ -63,12 +81,12 @@ def run(ctx):
     tier, seed, log = ctx["tier"], ctx["seed"], ctx["log"]
     rnd = random.Random(seed * 59 + 7)
     R = Res("operation histories on one QRCode object (+ other objects of the process): every sequence up to depth D over a "
-            "14-operation alphabet (add_data x2, clear, make fit on/off, version/level/mask assignment, get_matrix, caller "
-            "mutation of modules, make_image, print_ascii, another object compiling) from two constructors, cold and warm "
+            "16-operation alphabet (add_data x2, the same bytes as numeric / alphanumeric segment, clear, make fit on/off, "
+            "version/level/mask assignment, get_matrix, caller mutation of modules, make_image, print_ascii, another object compiling) from two constructors, cold and warm "
             "process-wide cache, plus seeded random histories of length <= 40 with varied payloads/versions/masks. "
             "P2: Model.step state machine vs the real object on every output and the final state (hashes of matrices); "
             "P3: after every make() in a history, modules / version / error = those of a fresh object with the same settings "
-            "and data in a cold cache. distinct = distinct histories")
+            "and data in a FRESH PROCESS (pristine fork server: no symbol was ever produced there). distinct = distinct histories")
     items = []
     D = 4 if tier == "thorough" else 3
     ctors = [(1, 0, 10, 4, 3), (None, 1, 10, 0, None)]
@@ -80,7 +98,7 @@ def run(ctx):
                 if d == D and tier == "thorough" and ci == 1 and (hash(seq) + seed) % 3:
                     continue
                 items.append((ctor, list(seq), () if (len(items) % 5) else (1, 2)))
-    R.exhaustive.append(f"every operation sequence up to depth {D} over the 14-operation alphabet (constructor 1; constructor 2 sampled at the last depth)")
+    R.exhaustive.append(f"every operation sequence up to depth {D} over the 16-operation alphabet (constructor 1; constructor 2 sampled at the last depth)")
     nrand = 6000 if tier == "thorough" else 800
     pay = lambda: ",".join(str(b) for b in gens.payload(rnd, rnd.choice(["lower", "digits", "alnum", "bytes", "zeros"]), rnd.choice([1, 3, 8, 14, 17, 20, 40, 60])))
     for _ in range(nrand):
@@ -120,8 +138,14 @@ def run(ctx):
         items.append((ctor, ops, tuple(rnd.sample(range(1, 8), rnd.randrange(0, 3)))))
     log(f"{len(items)} histories")
     import multiprocessing as mp
-    with mp.get_context("fork").Pool(14 if tier == "thorough" else 8) as pool:
-        res = pool.map(_work, items, chunksize=50)
+    from .. import pristine
+    global PRISTINE
+    PRISTINE = pristine.Pristine()       # forked before this process or any worker compiles anything
+    try:
+        with mp.get_context("fork").Pool(14 if tier == "thorough" else 8) as pool:
+            res = pool.map(_work, items, chunksize=50)
+    finally:
+        PRISTINE.close(); PRISTINE = None
     log("implementation done")
     got = ask_parallel([objrun.request(c, o, w) for c, o, w in items], chunk=300)
     for (ctor, ops, warm), (out, viol), g in zip(items, res, got):
@@ -129,8 +153,10 @@ def run(ctx):
         R.corr("history", key, out, g, tag="P2:len%d" % min(len(ops), 9), sample=key[:120] if len(ops) > 3 else None)
         nm = sum(1 for o in ops if o.startswith("make"))
         R.oracle("P3 " + key, not viol, dict(input=key[:400], history=dict(ctor=list(ctor), ops=ops, warm=list(warm)),
-                                             expected="every make() equals a fresh object with the same settings and data",
-                                             observed=str(viol[:2])), nontrivial=nm > 0, tag="P3:makes%d" % min(nm, 5))
+                                             expected="every make() equals a fresh object with the same settings and data in a fresh process",
+                                             observed=str([{k: v for k, v in x.items() if k != "earlier_in_this_process"} for x in viol[:2]]),
+                                             earlier_in_this_process=(viol[0].get("earlier_in_this_process") if viol else None)),
+                 nontrivial=nm > 0, tag="P3:makes%d" % min(nm, 5))
     log(f"done: {len(R.corr_failures)} disagreements, {len(R.violations)} violations")
     R.assumptions += ["caller mutation is modelled as writes into qr.modules (covers the border-0 alias returned by get_matrix)",
                       "error_correction is assigned integers 0..3 only (it is an unvalidated plain attribute)"]
